@@ -1277,6 +1277,8 @@ impl Drop for Debugger {
 
             if !current_tids.is_empty() {
                 current_tids.iter().for_each(|tid| {
+                    #[cfg(feature = "verif")]
+                    verif::rec_req(verif::ReqKind::Detach, *tid, 0);
                     sys::ptrace::detach(*tid, None).expect("detach debugee");
                 });
 
@@ -1326,6 +1328,8 @@ impl Drop for Debugger {
                     .collect();
                 // detach ptrace
                 stopped.into_iter().for_each(|tid| {
+                    #[cfg(feature = "verif")]
+                    verif::rec_req(verif::ReqKind::Detach, tid, 0);
                     sys::ptrace::detach(tid, None).expect("detach tracee");
                 });
                 // kill debugee process
